@@ -89,7 +89,7 @@ func genLock(r *rng, index int) *Spec {
 		sp.Rates = RateSpec{FromMs: 0, ToMs: total + 2000, ZKResetAfterDelete: []float64{0.2, 0.4}[r.intn(2)], ZKSlow: []float64{0, 0.03}[r.intn(2)]}
 	}
 	sp.Variant = fmt.Sprintf("clients=%d ttl=%d session=%d restart=%v sameid=%v contended=%v", k, sp.Cfg.LockHeldTTLMs, sp.Cfg.SessionTimeoutMs, restart, sp.Cfg.SameZKIdentity, contended)
-	sp.Primary = []string{"C03"}
+	sp.Primary = []string{"C03", "C15"}
 	return sp
 }
 
